@@ -247,6 +247,14 @@ def _producer(eng, case, front):
         if warming[0]:
             return types.ValidResult.PASS
         log['validator'] += 1
+        if case.get('raising'):
+            # a validator that gives up instead of answering (its own timeout, a cancelled fetch): no verdict at all
+            k = eng.choice(len(verdicts) + 2, 'verdict')
+            if k >= len(verdicts):
+                chosen['v'] = 'raised'
+                raise [TimeoutError, asyncio.CancelledError][k - len(verdicts)]()
+            chosen['v'] = verdicts[k]
+            return chosen['v']
         chosen['v'] = verdicts[eng.choice(len(verdicts), 'verdict')]
         return chosen['v']
 
@@ -375,7 +383,7 @@ def _producer(eng, case, front):
         eng.check(log['validator'] == 1, 'handler-only-after-validation')
     if log['handler'] and log['handler_args'] is not None:
         eng.check(beq(log['handler_args'][1], app_param), 'handler-gets-the-parameters')
-    if loop is not None and loop.errors:
+    if loop is not None and loop.errors and chosen.get('v') != 'raised':
         exc = loop.errors[0].get('exception')
         eng.fail('no-unhandled-error-in-loop', exc_sig(exc) if exc is not None else str(loop.errors[0].get('message')))
     eng.observe('handler', log['handler'])
@@ -410,6 +418,8 @@ def cases(tier, seed):
                     cs.append((front, c))
                     if n <= 1:
                         cs.append((front, dict(c, warm=True)))
+                    if front == 'prod_v2' and val and variant != 'plain' and n <= 1:
+                        cs.append((front, dict(c, raising=True)))
                     if front == 'prod_v1' and not val and variant == 'signed':
                         cs.append((front, dict(c, default_validator='reject')))
     return cs
